@@ -249,6 +249,13 @@ def term(rng, dom, info):
 
 
 def gen_tree(rng, dom, info):
+    if dom == 'z':
+        # lcapy declares z as a non-real symbol: sympy folds UnitImpulse(4 z), sign(z - 1) ... at construction
+        # using that assumption, so only rational functions are meaningful at real sample points
+        t = rng.choice([ratfun, poly])(rng)
+        for _ in range(rng.choice([0, 1, 2])):
+            t = [rng.choice(['add', 'sub', 'mul']), t, rng.choice([ratfun, poly, lambda g: ['abs', aff_tree(*affine(g))]])(rng)]
+        return t
     r = rng.random()
     if r < 0.18:
         # result valid only for var >= c0 (or another one-clause condition)
@@ -724,11 +731,11 @@ def sim_cases(rng, tier):
     for integ in ('trapezoid', 'backward-euler'):
         for N in Ns:
             cs.append({'kind': 'sim', 'net': ['V1 1 0 step 2', 'R1 1 2 %s' % float(F(Rv)), 'C1 2 0 %s' % float(F(Cv))], 'T': '1', 'N': N,
-                       'integrator': integ, 'probe': ['C1.v'], 'ref': ['rc', Rv, Cv], 'id': 'RC:' + integ})
+                       'integrator': integ, 'probe': ['C1.v'], 'ref': ['rc', Rv, Cv], 'id': 'RC:' + integ, 'timeout': 600})
             cs.append({'kind': 'sim', 'net': ['V1 1 0 step 2', 'R1 1 2 %s' % float(F(Rv)), 'L1 2 0 %s' % float(F(Lv))], 'T': '1', 'N': N,
-                       'integrator': integ, 'probe': ['L1.i'], 'ref': ['rl', Rv, Lv], 'id': 'RL:' + integ})
+                       'integrator': integ, 'probe': ['L1.i'], 'ref': ['rl', Rv, Lv], 'id': 'RL:' + integ, 'timeout': 600})
             cs.append({'kind': 'sim', 'net': ['V1 1 0 step 1', 'R1 1 2 1', 'L1 2 3 0.5', 'C1 3 0 0.25'], 'T': '4', 'N': 4 * (N - 1) + 1,
-                       'integrator': integ, 'probe': ['C1.v'], 'ref': ['rlc'], 'id': 'RLC:' + integ})
+                       'integrator': integ, 'probe': ['C1.v'], 'ref': ['rlc'], 'id': 'RLC:' + integ, 'timeout': 900})
     return cs
 
 
@@ -925,7 +932,7 @@ def run(tier='quick', replay=None):
         phase['translate+prove'] = round(_t.time() - T0, 1)
         # ---- 3. run the real code ---------------------------------------------------
         nprobe = probe_cases()
-        ngen = 120 if tier == 'quick' else 1200
+        ngen = 120 if tier == 'quick' else 2500
         exact = expand_modes(nprobe + gen_exact_cases(rng, ngen))
         tcases = text_cases(rng, tier)
         scases = sim_cases(rng, tier)
@@ -943,7 +950,15 @@ def run(tier='quick', replay=None):
                     {'sim': scases, 'response': rcases}[rc['kind']].append(d)
                 exact = expand_modes(exact)
         allc = scases + rcases + exact + tcases + stcases + misc
-        allr = core.run_impl('impl_numeval.py', allc, timeout=1500)
+        allr = core.run_impl('impl_numeval.py', allc, timeout=1500 if tier == 'quick' else 4000)
+        ncrash = sum(1 for r in allr if 'worker crashed' in str(r.get('error', '')))
+        if ncrash:
+            # part of the run did not execute: never a silent pass, never blamed on the code under test
+            res.count('worker_crashed_cases', ncrash)
+            res.failed_obl.append(('infrastructure_worker', 'tools/impl_numeval.py', '%d cases lost: %s' % (
+                ncrash, [r['error'] for r in allr if 'worker crashed' in str(r.get('error', ''))][0][:300])))
+            res.obligations += 1
+            allr = [({'timeout': True} if 'worker crashed' in str(r.get('error', '')) else r) for r in allr]
         phase['lcapy'] = round(_t.time() - T0 - phase['translate+prove'], 1)
         o = 0
         sres = allr[o:o + len(scases)]; o += len(scases)
@@ -1092,9 +1107,9 @@ def run(tier='quick', replay=None):
                     # a list evaluation may raise only if some element raises on its own (checked against the scalar twin below / the model)
                     res.count('vector_raises')
             # scalar twin vs array run of the same expression
-            if 'pair_with' in c:
+            if 'pair_with' in c and not r.get('const'):
                 r2 = eres[c['pair_with']]
-                if 'error' not in r2:
+                if 'error' not in r2 and 'timeout' not in r2:
                     if 'vec_err' in r2:
                         if all('num' in rj or 'num_inexact' in rj for rj in r['res']):
                             add_cex('array_ne_scalar:raises', 'array evaluation raises %s although every element evaluates as a scalar' % r2['vec_err'], c)
@@ -1185,6 +1200,9 @@ def run(tier='quick', replay=None):
         # lambdify contract, companion netlists, exact one-step formulas
         sim_items = []
         for c, r in zip(misc, mres):
+            if 'timeout' in r:
+                res.count('impl_timeout')
+                continue
             if c['kind'] == 'lambdify':
                 if 'error' in r or 'sinc(t/pi)' not in r.get('src', ''):
                     res.disagreements.append({'case': c, 'lcapy': r, 'side': 'lambdify contract sinc(x) -> sinc(x/pi)'})
@@ -1203,6 +1221,9 @@ def run(tier='quick', replay=None):
             TAG = {k: v[0] for k, v in TS.CLASSES.items()}
             lines = []
             for i, (c, r) in enumerate(zip(stcases, stres)):
+                if 'timeout' in r:
+                    res.count('impl_timeout')
+                    continue
                 if 'error' in r:
                     res.disagreements.append({'case': c, 'lcapy': r, 'side': 'simstep'})
                     continue
@@ -1240,6 +1261,9 @@ def run(tier='quick', replay=None):
             return {k: sorted(v) for k, v in out.items()}
         groups = {}
         for c, r in zip(scases, sres):
+            if 'timeout' in r:
+                res.count('impl_timeout')
+                continue
             if 'error' in r:
                 add_cex('sim:error:' + c['id'], 'Simulator failed: ' + r['error'], c)
                 continue
@@ -1258,6 +1282,9 @@ def run(tier='quick', replay=None):
                     c2['probe'][0], e1, N1, e2, N2), c2, float_evidence=True)
         groups = {}
         for c, r in zip(rcases, rres):
+            if 'timeout' in r:
+                res.count('impl_timeout')
+                continue
             if 'error' in r:
                 add_cex('response:error:' + c['id'], 'response() failed: ' + r['error'], c)
                 continue
